@@ -17,6 +17,8 @@ EXPLANATION = (
     "Repeated (through insert), skips unsupported identifiers; is_forbidden = {0,2,3,4,5} (RFC 9114 Table 3 / 11.2.2); "
     "all SettingsError map to H3_SETTINGS_ERROR (C02-e table); (e) set_settings has one call site and the store is a "
     "OnceLock; defaults otherwise (C10-c). The cfg(test) send_settings switch is test-only code.")
+# every anchor of these rules lives in the h3 crate: thorough tier repeats them on the feature-less build
+EXTRA_CONFIGS = ["h3-plain"]
 RULES = "C13-a what is sent (A4/A11); C13-b capacity and buffer bound (A17/A6); C13-c setup never panics (A4/A5); C13-d receive (A3/A2/A11); C13-e applied once (A10)"
 
 FRM = "h3::proto::frame::"
